@@ -1555,6 +1555,20 @@ impl AggregationState {
 
         let n = group_accessors.len();
 
+        // A group whose key is NULL in EVERY column cannot live in this table:
+        // its recorded key equals a free slot's, and `slot_has_data` then has
+        // only the accumulators to go by - which are legitimately empty when the
+        // group's aggregated values are all NULL too, so the group vanished.
+        // Hand such a state to the exact HashMap path.
+        if n > 0
+            && group_accessors.iter().all(|a| {
+                a.raw_key(row) == u64::MAX && matches!(a.extract_scalar(row), ScalarValue::Null)
+            })
+        {
+            self.overflowed = true;
+            return None;
+        }
+
         // Phase 1: Register all keys and collect ids.
         // We must do this BEFORE computing flat_idx because discovering a new
         // key in column j changes strides for columns 0..j-1.
@@ -2541,6 +2555,15 @@ impl AggregationState {
 
         // Merge HashMap entries
         for (key, other_accs) in &other.groups {
+            // An all-NULL key has no representation in the perfect-hash table
+            // (see get_or_assign_perfect_index): receive it in the HashMap.
+            if !self.overflowed
+                && !key.values.is_empty()
+                && key.values.iter().all(|v| matches!(v, ScalarValue::Null))
+            {
+                self.drain_perfect_to_hashmap();
+                self.overflowed = true;
+            }
             if !self.overflowed {
                 if let Some(our_idx) = self.find_perfect_index(key) {
                     while self.perfect_accs.len() <= our_idx {
